@@ -453,7 +453,7 @@ def run_function(f, args: dict, funcs=None, env=None, final_env=None, methods=No
             env[t.id] = v
         elif isinstance(t, ast.Subscript):
             base = ev(t.value, env, funcs, methods)
-            if not isinstance(base, (FinMat, list, dict)):
+            if not isinstance(base, (FinMat, list, dict)) and not (isinstance(base, FinObj) and hasattr(type(base), "__setitem__")):
                 raise NotFinite("subscript store on an unmodelled object")
             base[ev(t.slice, env, funcs, methods)] = v
         elif isinstance(t, ast.Attribute) and isinstance(t.value, ast.Name) and isinstance(env.get(t.value.id), FinObj):
